@@ -86,7 +86,14 @@ def b_len(it, x):
 
 
 def b_range(it, *a):
-    a = [it.concrete_int(x) if not hasattr(x, "fvc_symrange") else x for x in a]
+    if any(is_sym(sym.concretize(npm.unwrap0(x))) for x in a):
+        from . import modeb
+        if len(a) == 1:
+            return modeb.SymRange(0, a[0])
+        if len(a) == 2:
+            return modeb.SymRange(a[0], a[1])
+        raise SymError("symbolic range with a step")
+    a = [it.concrete_int(x) for x in a]
     return range(*a)
 
 
@@ -283,6 +290,9 @@ def b_dict(it, x=None, **kw):
 
 
 def b_enumerate(it, x, start=0):
+    from . import modeb
+    if isinstance(x, modeb.SymSeq):
+        return modeb.SymEnumerate(x)
     return _I().LiveIter(((i, v) for i, v in enumerate(it.iterate(x), start)))
 
 
@@ -934,7 +944,13 @@ def _np_table():
         t[n] = ModelFn("np." + n, f)
     t["zeros"] = ModelFn("np.zeros", lambda it, shape, dtype="float": npm.zeros(_shape(it, shape)))
     t["ones"] = ModelFn("np.ones", lambda it, shape: npm.ones(_shape(it, shape)))
-    t["empty"] = ModelFn("np.empty", lambda it, shape=None, dtype=None: npm.empty(_shape(it, shape)))
+    def np_empty(it, shape=None, dtype=None):
+        sh = npm.unwrap0(shape)
+        if is_sym(sym.concretize(sh)) if not isinstance(sh, (tuple, list)) else False:
+            from . import modeb
+            return modeb.SymSeq(sh, array=modeb.fresh("empty", z3.ArraySort(z3.IntSort(), z3.RealSort())), name="empty")
+        return npm.empty(_shape(it, shape))
+    t["empty"] = ModelFn("np.empty", np_empty)
     t["arange"] = ModelFn("np.arange", lambda it, *a: npm.arange(*[it.concrete_int(x) for x in a]))
     t["seterr"] = ModelFn("np.seterr", lambda it, **k: None)
     t["pi"] = PI_VALUE
